@@ -186,6 +186,26 @@ def run(case, ctx):
                 gp = gp if (mu in (None, "all") and not conc) else [gp]
                 if ok2 and canon(list(gp)) != canon(vals):
                     ctx.violate(f"C04/values-differ/{sig}", f"with paths {vals!r}, without {gp!r}")
+    # a path bound to the caller's document, modifiers derived from it, then the caller edits the
+    # document in place: the derived path must see the document as it now is
+    if not expect_raise and type(doc) in (dict, list) and pterm["parts"]:
+        d2 = M.deep_copy(doc)
+        okb, bound = call(lambda: build.apply_mods(DP.DataPath(*[build.part_obj(q) for q in pterm["parts"]], source_data=d2), pterm))
+        if okb:
+            call(bound.get_data)
+            k0 = next(iter(d2)) if type(d2) is dict else 0
+            d2[k0] = {"edited": [1, 2, 3]} if canon(d2[k0]) != canon({"edited": [1, 2, 3]}) else 7
+            try:
+                e2 = M.expected_get(pterm, d2, return_paths=rp)
+                okg, g2 = call(bound.get_data, None, rp)
+                ctx.count("bound-document-edited-after-deriving")
+                if not okg:
+                    ctx.violate(f"C04/{g2.key()}/bound-edit", f"{g2!r}")
+                elif canon(g2) != canon(e2):
+                    ctx.violate(f"C04/bound-stale/{sig}", f"a path bound to a document (modifiers derived, then the caller edited the "
+                                f"document in place) returns {g2!r}; the document now gives {e2!r}; {pterm}")
+            except (M.Undefined, M.SingleViolation):
+                pass
     # the receiver still resolves as before the modifiers were derived from it
     post = call(base.get_data, doc), call(base.get_data, doc, True)
     if [(o[0], canon(o[1]) if o[0] else o[1].type) for o in pre] != [(o[0], canon(o[1]) if o[0] else o[1].type) for o in post]:
